@@ -1,6 +1,7 @@
 import Exetera.Model.Catalogue
 import Exetera.Spec.Catalogue
 import Exetera.Lemmas.CatalogueViews
+import Exetera.Lemmas.CatalogueReopen
 /-!
   C15 — the catalogue stays consistent under any history of structural edits.
   All theorems are about `Exetera.Catalogue.step .repaired` / `run .repaired`, the functions the driver executes
@@ -29,27 +30,25 @@ theorem inv_init : Inv State.init := by
            linkFrame := by simp [State.init], handleLink := by simp [State.init], handleOidLt := by simp [State.init],
            dfsNodup := by simp [State.init], sameFrames := by simp [State.init] }
 
-/-- Every client call other than `reopen` — create_*, df[n]=f, add, del, drop, delete_field, rename, dataframe.copy/move,
-    create/require/copy/setitem/del/drop/delete/move of dataframes — keeps the invariant, whether it returns or raises. -/
-theorem inv_step_partial {s : State} (hI : Inv s) (op : Op) (hop : op.isReopen = false) : Inv (step .repaired s op).state :=
-  step_inv_noreopen hI op (by intro d hd; subst hd; simp [Op.isReopen] at hop)
+/-- Every client call — create_*, df[n]=f, add, del, drop, delete_field, rename, dataframe.copy/move, create/require/copy/
+    setitem/del/drop/delete/move of dataframes, closing and reopening a file — keeps the invariant, whether it returns or
+    raises. -/
+theorem inv_step {s : State} (hI : Inv s) (op : Op) : Inv (step .repaired s op).state := by
+  by_cases h : ∃ d, op = .reopen d
+  · obtain ⟨d, rfl⟩ := h
+    exact reopen_inv hI d
+  · exact step_inv_noreopen hI op (fun d hd => h ⟨d, hd⟩)
 
-/- full statement (the `reopen` case is not proved yet, see the report):
-theorem inv_step {s : State} (hI : Inv s) (op : Op) : Inv (step .repaired s op).state -/
-
-/-- The invariant holds after every history of calls (exceptions included) that does not close and reopen a file. -/
-theorem inv_run_partial (ops : List Op) (hops : ∀ op ∈ ops, op.isReopen = false) {s : State} (hI : Inv s) :
-    Inv (run .repaired s ops) := by
+/-- The invariant holds after every history of calls, exceptions included. -/
+theorem inv_run (ops : List Op) {s : State} (hI : Inv s) : Inv (run .repaired s ops) := by
   induction ops generalizing s with
   | nil => exact hI
-  | cons op ops ih =>
-    simp only [run]
-    exact ih (fun o ho => hops o (List.mem_cons_of_mem _ ho)) (inv_step_partial hI op (hops op List.mem_cons_self))
+  | cons op ops ih => simp only [run]; exact ih (inv_step hI op)
 
-/- full statement:
-theorem inv_run (ops : List Op) : Inv (run .repaired State.init ops) -/
+/-- … in particular from the empty state: every reachable state of the (repaired) code is consistent. -/
+theorem inv_all_histories (ops : List Op) : Inv (run .repaired State.init ops) := inv_run ops inv_init
 
-example : Inv exState := inv_run_partial exOps (by decide) inv_init
+example : Inv exState := inv_all_histories exOps
 example : exState.cols.length = 3 ∧ exState.file.length = 3 := by decide
 
 /-! ### names reported = groups in the file = what a reopen reads -/
@@ -58,10 +57,10 @@ example : exState.cols.length = 3 ∧ exState.file.length = 3 := by decide
     their data) is the catalogue stored in the file — the one a fresh reopen reads. -/
 theorem reported_catalogue_is_file_catalogue {s : State} (hI : Inv s) : absPy s = absH5 s := views_agree hI
 
-/-- … hence after every history (without reopen). -/
-theorem reopen_same_partial (ops : List Op) (hops : ∀ op ∈ ops, op.isReopen = false) :
-    absPy (run .repaired State.init ops) = absH5 (run .repaired State.init ops) :=
-  views_agree (inv_run_partial ops hops inv_init)
+/-- … hence after every history: what `ds.keys()`, `df.keys()` and the field objects report is what the file holds and
+    what a fresh reopen shows (the reopen assumption: reopening reads exactly the link tables, `absH5`). -/
+theorem reopen_same (ops : List Op) : absPy (run .repaired State.init ops) = absH5 (run .repaired State.init ops) :=
+  views_agree (inv_all_histories ops)
 
 example : (absH5 exState 0 "x").isSome = true ∧ ((absH5 exState 0 "x").bind (· "b")) = some ⟨.indexed, 2⟩ := by decide
 
